@@ -128,6 +128,8 @@ def run_order(chk, F):
                key='E7b|simplex_tree|%s|one-sort' % unit)
         if len(sc) == 1:
             sorts[unit] = (ir.call_name(sc[0]), [ir.show(a) for a in ir.call_args(sc[0])], sc[0])
+            cmprules.check_whole_range(chk, 'E7b-sort-arms', sc[0], '%s:%s' % (H, sc[0].get('l')),
+                                       'E7b|simplex_tree|%s|whole-range' % unit, 'initialize_filtration (%s)' % unit)
         # the default overload hands the checked comparator down
         dflt = [f for f in F.funcs('initialize_filtration', unit=unit) if len(f['params']) <= 1]
         uses = any(ir.contains(f['body'], lambda y: 'is_before_in_totally_ordered_filtration' in
